@@ -16,6 +16,9 @@ type Opts struct {
 
 var commands = map[string]func(o Opts) error{}
 
+// tier of this run (for helpers that start child processes)
+var runTier = "quick"
+
 func main() {
 	if len(os.Args) < 2 {
 		fmt.Fprintln(os.Stderr, "usage: harness <property> [-tier quick|thorough] [-seed N] [-out DIR] [-replay FILE]")
@@ -35,6 +38,7 @@ func main() {
 	} else {
 		o.Seed = 1
 	}
+	runTier = o.Tier
 	f, ok := commands[cmd]
 	if !ok {
 		fmt.Fprintf(os.Stderr, "unknown command %q\n", cmd)
